@@ -376,6 +376,10 @@ def _invalid_switch_case(args):
     y = y.copy()
     x = x.copy()
     y[2], y[6], x[4] = np.nan, np.inf, np.nan
+    # the partner values of the invalid ones are unremarkable (never the
+    # extremes that would fix the extent of a grid)
+    x[2] = x[6] = np.median(x[np.isfinite(x)])
+    y[4] = np.median(y[np.isfinite(y)])
     fam = [np.ones(n, bool), np.arange(n) % 2 == 0, np.arange(n) < 7]
 
     def stats(ds, feats):
@@ -405,6 +409,35 @@ def _invalid_switch_case(args):
                 dclab.set_temporary_feature(ds, "vf_c12_tmp", tmp)
                 feats = feats + ["vf_c12_tmp"]
             sel = np.array(ds.filter.all)
+            # contours pair x and y per event: invalid values in one of the
+            # two features remove the event, not a value
+            fin = sel & np.isfinite(x) & np.isfinite(y)
+            refc = _new(x[fin], y[fin])
+            for kt in ("histogram", "gauss", "multivariate"):
+                for scale in ("linear", "log"):
+                    # (explicit accuracies: how dclab derives a default
+                    # grid spacing from the data is not the subject here)
+                    acc = dict(xacc=7.0, yacc=0.01) if scale == "linear" \
+                        else dict(xacc=0.05, yacc=0.05)
+                    ca = call(ds.get_kde_contour, kde_type=kt, xscale=scale,
+                              yscale=scale, **acc)
+                    cb = call(refc.get_kde_contour, kde_type=kt,
+                              xscale=scale, yscale=scale, **acc)
+                    okc = eq(ca, cb) if isinstance(ca, Raised) or isinstance(
+                        cb, Raised) else all(
+                        np.asarray(u).shape == np.asarray(w).shape
+                        and np.allclose(u, w, rtol=1e-9, atol=0,
+                                        equal_nan=True)
+                        for u, w in zip(ca, cb))
+                    if not okc:
+                        out.append(violation(
+                            "dclab.rtdc_dataset.core:RTDCBase."
+                            "get_kde_contour", "invalid-events-influence",
+                            case, f"{how}: {kt}/{scale} contour with NaN/inf "
+                            f"among the selected events differs from the "
+                            f"contour of the finite selected events "
+                            f"({ca if isinstance(ca, Raised) else ''})",
+                            {"kde": kt, "how": how}))
             try:
                 got = stats(ds, feats)
             except BaseException as e:
